@@ -77,7 +77,12 @@ def run(ctx):
                   ("fatal report name", ["report", "--csv", "badname.tjp"], None, None),
                   ("fatal report name stdin", ["report"], texts[0] + b'\ntaskreport q "what?" { formats json columns id }\n', None),
                   ("output new file", ["report", "-o", "out_new.json", names[0]], None, None),
-                  ("output forced", ["report", "--force", "-o", "exists.json", names[0]], None, None)]
+                  ("output forced", ["report", "--force", "-o", "exists.json", names[0]], None, None),
+                  # -o names a file that does not exist yet and the run fails: nothing may appear in the working directory
+                  ("output new file, syntax error", ["report", "-o", "never1.json", "syntax.tjp"], None, None),
+                  ("output new file, fatal report name", ["report", "--csv", "--output", "never2.csv", "badname.tjp"], None, None),
+                  ("output new file, empty stdin", ["report", "-o", "never3.json"], b"", None),
+                  ("output new file, undecodable", ["report", "-o", "never4.json", "binary.tjp"], None, None)]
         for label, args, stdin, key in paths:
             r = box.run(args, stdin=stdin)
             stats["path:" + label.split(" ")[0]] += 1
@@ -153,7 +158,7 @@ def run(ctx):
                 except OSError:
                     pass
         # ---- concurrent runs in the same directory: same and different inputs
-        n = ctx.n(12, 60)
+        n = ctx.n(24, 72)
         jobs = []
         for j in range(n):
             i = j % len(names) if j % 3 else 0            # many runs on the same input
@@ -162,6 +167,11 @@ def run(ctx):
                 jobs.append(((names[i], "stdin"), box.popen(["report"], stdin=texts[i]), texts[i]))
             elif j % 7 == 6:
                 jobs.append((None, box.popen(["report", "syntax.tjp"]), None))
+            elif j % 6 == 5:
+                # runs that fail before their own temporary files exist (input that is not text), next to runs in progress
+                jobs.append((None, box.popen(["report", "binary.tjp"]), None))
+            elif j % 11 == 3:
+                jobs.append((None, box.popen(["report", "-"], stdin=b'project p "P\xff\xfe" 2025-01-06 +1w {}\n'), b'project p "P\xff\xfe" 2025-01-06 +1w {}\n'))
             else:
                 jobs.append(((names[i], tuple(fmt)), box.popen(["report"] + fmt + [names[i]]), None))
         for key, p, stdin in jobs:
@@ -197,7 +207,7 @@ def run(ctx):
         violations.append({"no_input": True, "replay": common.write_replay(ctx, {"property": "C20", "kind": "proof obligation no longer checks; no failing input found", "failing_obligations": failing})})
     cov = {"obligations": nob, "discharged": ndis, "checker_cmd": "tools/coqbuild.sh (coqc 8.16.1 full .vo build)", "trusted_base": common.TRUSTED, "files": files,
            "traces_validated_against_impl": sum(stats.values()), "input_distribution": dict(stats), "findings": len(bad),
-           "rule": "the real entry point as a subprocess with a private cwd and TMPDIR; directory listings before/after every exit path (success json/csv, stdin, own reports incl. one whose name contains a path separator, missing / empty / syntax-error input from file and stdin, report definitions that the library ends with sys.exit (anonymous report, invalid character in the name), output file exists with and without --force, stdout a pipe whose reader is gone, new output file, --verbose and --quiet on succeeding and failing runs); eleven of the paths also under strace: the order in which the run's own temporary names (stdin copy, combined file, private output directory) are created and removed is compared with the extracted Model/Cli.v (trace) and no other name may appear in TMPDIR; then N concurrent invocations (12 quick / 60 thorough) in the same cwd and TMPDIR on the same and on different inputs incl. failing ones, each compared byte-wise with its solitary run. The concurrent part is testing and labelled so.",
+           "rule": "the real entry point as a subprocess with a private cwd and TMPDIR; directory listings before/after every exit path (success json/csv, stdin, own reports incl. one whose name contains a path separator, missing / empty / syntax-error input from file and stdin, report definitions that the library ends with sys.exit (anonymous report, invalid character in the name), output file exists with and without --force, -o naming a new file on failing runs, stdout a pipe whose reader is gone, new output file, --verbose and --quiet on succeeding and failing runs); eleven of the paths also under strace: the order in which the run's own temporary names (stdin copy, combined file, private output directory) are created and removed is compared with the extracted Model/Cli.v (trace) and no other name may appear in TMPDIR; then N concurrent invocations (24 quick / 72 thorough) in the same cwd and TMPDIR on the same and on different inputs incl. failing ones (syntax errors, and input that is not text, which fails before the run's own temporary files exist), each compared byte-wise with its solitary run. The concurrent part is testing and labelled so.",
            "samples": [{"args": ["report", "-o", "exists.json", "p0.tjp"], "expect": "exit 2, nothing left in TMPDIR"}]}
     common.finish(ctx, "proof", cov, violations,
                   ["partial: kernel scheduling and the file system are runtime; freshness of mkstemp / mkdtemp / token_hex names is the assumption of the commutation theorem"],
